@@ -12,9 +12,9 @@ type M = hpke::kem::ToyKemLin;
 const CT: usize = 5;
 const AD: usize = 3;
 
-//@h name=c05_l1_open_in_place_step tier=quick mode=func timeout=600 desc="one open_in_place_detached step from an arbitrary receiver state with an arbitrary AEAD verdict: exhausted => MessageLimitReached, AEAD not called, buffer and state untouched; AEAD rejects => OpenError, (seq, overflowed) unchanged; AEAD accepts => Ok, counter +1 or latch at 2^64-1; the nonce offered is base_nonce XOR BE64(seq); key/aad/ciphertext/tag passed unchanged" bounds="key, base nonce, seq (64 bit), overflowed, tag, verdict symbolic; ciphertext 0..=5 B, aad 0..=3 B; unwind 34"
+//@h name=c05_l1_open_in_place_step tier=quick mode=func timeout=600 desc="one open_in_place_detached step from an arbitrary receiver state with an arbitrary AEAD verdict: exhausted => MessageLimitReached, AEAD not called, buffer and state untouched; AEAD rejects => OpenError, (seq, overflowed) unchanged; AEAD accepts => Ok, counter +1 or latch at 2^64-1; the nonce offered is base_nonce XOR BE64(seq); key/aad/ciphertext/tag passed unchanged" bounds="key, base nonce, seq (64 bit), overflowed, tag, verdict symbolic; ciphertext 0..=5 B, aad 0..=3 B; unwind 20"
 #[kani::proof]
-#[kani::unwind(34)]
+#[kani::unwind(20)]
 #[kani::stub(zeroize::optimization_barrier, noop_barrier)]
 pub fn c05_l1_open_in_place_step() {
     let key: [u8; 16] = kani::any();
@@ -68,9 +68,9 @@ pub fn c05_l1_open_in_place_step() {
 
 const CTA: usize = 20;
 
-//@h name=c05_l1_open_alloc_step tier=quick mode=full timeout=1200 desc="one step of the allocating open() for every ciphertext length around the tag length: exhausted => MessageLimitReached whatever the input (including inputs shorter than a tag); len < Nt => OpenError with state unchanged and the AEAD not called; otherwise split = (input[..len-16], input[len-16..]) handed unchanged to the AEAD and the verdict decides OpenError/Ok exactly as in the in-place form; all default Kani checks on (no panic)" bounds="state fully symbolic; input length 0..=20 (Nt=16), aad 0..=3 B; unwind 34"
+//@h name=c05_l1_open_alloc_step tier=quick mode=full timeout=1200 desc="one step of the allocating open() for every ciphertext length around the tag length: exhausted => MessageLimitReached whatever the input (including inputs shorter than a tag); len < Nt => OpenError with state unchanged and the AEAD not called; otherwise split = (input[..len-16], input[len-16..]) handed unchanged to the AEAD and the verdict decides OpenError/Ok exactly as in the in-place form; all default Kani checks on (no panic)" bounds="state fully symbolic; input length 0..=20 (Nt=16), aad 0..=3 B; unwind 20"
 #[kani::proof]
-#[kani::unwind(34)]
+#[kani::unwind(20)]
 #[kani::stub(zeroize::optimization_barrier, noop_barrier)]
 pub fn c05_l1_open_alloc_step() {
     let key: [u8; 16] = kani::any();
@@ -187,9 +187,9 @@ fn pt_eq(a: &[u8; PT], b: &[u8; PT], len: usize) -> bool {
     ok
 }
 
-//@h name=c05_l2_hist_skip_next_replay_next tier=quick mode=func timeout=1500 desc="two messages sealed from an arbitrary common state; deliveries: #1 early (skip) => OpenError, #0 => Ok+plaintext, #0 again (replay) => OpenError, #1 => Ok+plaintext; after every delivery the receiver position equals start + number of successes" bounds="key, base nonce, seq <= 2^64-3 symbolic; plaintexts 0..=3 B, aads 0..=2 B symbolic; ideal AEAD (INT-CTXT by construction); unwind 34"
+//@h name=c05_l2_hist_skip_next_replay_next tier=quick mode=func timeout=1500 desc="two messages sealed from an arbitrary common state; deliveries: #1 early (skip) => OpenError, #0 => Ok+plaintext, #0 again (replay) => OpenError, #1 => Ok+plaintext; after every delivery the receiver position equals start + number of successes" bounds="key, base nonce, seq <= 2^64-3 symbolic; plaintexts 0..=3 B, aads 0..=2 B symbolic; ideal AEAD (INT-CTXT by construction); unwind 20"
 #[kani::proof]
-#[kani::unwind(34)]
+#[kani::unwind(20)]
 #[kani::stub(zeroize::optimization_barrier, noop_barrier)]
 pub fn c05_l2_hist_skip_next_replay_next() {
     let key: [u8; 16] = kani::any();
@@ -223,9 +223,9 @@ pub fn c05_l2_hist_skip_next_replay_next() {
     kani::cover!(seq == u64::MAX - 2 && m0.len == PT && m1.len == 0, "top of the counter range");
 }
 
-//@h name=c05_l2_hist_tamper_then_next tier=quick mode=func timeout=1500 desc="one message sealed from an arbitrary common state incl. seq = 2^64-1; deliveries: copy with one flipped bit at a symbolic position in ciphertext, tag or aad => OpenError and position unchanged; truncated copy => OpenError; original => Ok+plaintext, position +1 (or latched); original again => OpenError or MessageLimitReached when latched" bounds="key, base nonce, seq (all 2^64) symbolic; plaintext 1..=3 B, aad 1..=2 B; flip position symbolic over all ciphertext/tag/aad bits; ideal AEAD; unwind 34"
+//@h name=c05_l2_hist_tamper_then_next tier=quick mode=func timeout=1500 desc="one message sealed from an arbitrary common state incl. seq = 2^64-1; deliveries: copy with one flipped bit at a symbolic position in ciphertext, tag or aad => OpenError and position unchanged; truncated copy => OpenError; original => Ok+plaintext, position +1 (or latched); original again => OpenError or MessageLimitReached when latched" bounds="key, base nonce, seq (all 2^64) symbolic; plaintext 1..=3 B, aad 1..=2 B; flip position symbolic over all ciphertext/tag/aad bits; ideal AEAD; unwind 20"
 #[kani::proof]
-#[kani::unwind(34)]
+#[kani::unwind(20)]
 #[kani::stub(zeroize::optimization_barrier, noop_barrier)]
 pub fn c05_l2_hist_tamper_then_next() {
     let key: [u8; 16] = kani::any();
